@@ -79,6 +79,23 @@ mod set_g {
     }
 }
 
+mod set_h {
+    // valid language identifiers of less usual shapes: the undetermined language, a variant without region, numeric regions,
+    // a name in the wrong case
+    leptos_i18n::declare_locales! {
+        path: leptos_i18n,
+        default: "en",
+        locales: ["en", "und", "de-1996", "en-001", "es-419", "EN-gb", "ca-valencia"],
+        en: { k: "x" },
+        und: { k: "x" },
+        de_1996: { k: "x" },
+        en_001: { k: "x" },
+        es_419: { k: "x" },
+        EN_gb: { k: "x" },
+        ca_valencia: { k: "x" },
+    }
+}
+
 fn dir_name(d: leptos_i18n::Direction) -> &'static str {
     d.as_str()
 }
@@ -147,6 +164,7 @@ pub fn do_ident(c: &Value, w: &mut Out) {
         "E" => ident_ops::<set_e::i18n::Locale>(&id, set, &probes, w),
         "F" => ident_ops::<set_f::i18n::Locale>(&id, set, &probes, w),
         "G" => ident_ops::<set_g::i18n::Locale>(&id, set, &probes, w),
+        "H" => ident_ops::<set_h::i18n::Locale>(&id, set, &probes, w),
         other => panic!("unknown set {}", other),
     }
 }
